@@ -17,7 +17,7 @@ type lhsCand struct {
 var scalarLhs = map[string][]lhsCand{
 	Things: {{"id", TStr, false}, {"s", TStr, false}, {"ism", TInt, false}, {"ibig", TInt, false}, {"flt", TFloat, false}, {"b", TBool, false}, {"t", TTime, false}, {"grp", TStr, false}, {"owner", TStr, false},
 		{"owner.name", TStr, false}, {"owner.age", TInt, false}, {"owner.active", TBool, false}, {"owner.id", TStr, false},
-		{"meta.k", TAny, false}, {"meta.n", TAny, false}, {"meta.f", TAny, false}, {"meta.flag", TAny, false}, {"meta.when", TAny, false}, {"meta.a.b", TAny, false}, {"meta.missing", TAny, false}},
+		{"meta.k", TAny, false}, {"meta.n", TAny, false}, {"meta.f", TAny, false}, {"meta.flag", TAny, false}, {"meta.when", TAny, false}, {"meta.a.b", TAny, false}, {"meta.c.b", TAny, false}, {"meta.a.k", TAny, false}, {"meta.missing", TAny, false}},
 	Owners: {{"id", TStr, false}, {"name", TStr, false}, {"age", TInt, false}, {"active", TBool, false}},
 	Others: {{"id", TStr, false}, {"name", TStr, false}, {"rank", TInt, false}, {"alias", TStr, false}},
 }
@@ -91,8 +91,11 @@ func (g *Gen) litFor(typ Type, op string) []Lit {
 				// number-to-string coercion: only unambiguous renderings
 				if r.Bool() {
 					out = append(out, LInt(core.Pick(r, []int64{5, 10, 7, -1})))
-				} else {
+				} else if r.P(0.6) {
 					out = append(out, LFloat(2.25, "2.25"))
+				} else {
+					// a number whose shortest rendering has an exponent: the coercion writes it out in full
+					out = append(out, LFloat(0.00005, "0.00005"))
 				}
 			} else {
 				out = append(out, g.strLit(typ))
